@@ -163,21 +163,25 @@ class ZoneRegistrar {
      */
     static uint16_t binarySearchByName(const ZI* const* registry,
         uint16_t registrySize, const char* name) {
+      // Search the half-open interval [a, b). The previous closed-interval
+      // version computed 'b = c - 1', which wraps to 65535 when c == 0 (reading
+      // far outside the registry) and can make 'b < a' (looping forever) for
+      // names which are not in the registry.
       uint16_t a = 0;
-      uint16_t b = registrySize - 1;
+      uint16_t b = registrySize;
       const ZRB zoneRegistry(registry);
-      while (true) {
-        uint16_t c = (a + b) / 2;
+      while (a < b) {
+        uint16_t c = a + (b - a) / 2;
         const ZI* zoneInfo = zoneRegistry.zoneInfo(c);
-        int8_t compare = STRCMP_P(name, ZIB(zoneInfo).name());
+        int compare = STRCMP_P(name, ZIB(zoneInfo).name());
         if (compare == 0) return c;
-        if (a == b) return kInvalidIndex;
         if (compare < 0) {
-          b = c - 1;
+          b = c;
         } else {
           a = c + 1;
         }
       }
+      return kInvalidIndex;
     }
 
     /** Find the registry index corresponding to id using linear search. */
